@@ -1,8 +1,24 @@
 (* Props/C11.v — property C11: the DWARF view is invariant under container encoding.
-   Only statements, closed by [exact]; proofs live in Proofs/C11*.v. *)
-From PV Require Import Base.Bytes Spec.C11Container Model.C11Dwarf Proofs.C11Crc.
+   Only statements, closed by [exact]; proofs live in Proofs/C11*.v.
+   Spec/C11Container.v: [debug_view inflate parse fuel fs e relocate follow] is what a file
+   hands to the DWARF reader (configuration, the 19 section slots with content / size /
+   address / relocation section, and the view of a supplementary file); the DWARF dump
+   (units, entries, line tables, frame tables) is a function of it.  zlib is the variable
+   [inflate] (never an axiom): every theorem below is universally quantified over it, the
+   only thing assumed is the law [deflated inflate blob content] for the blobs handed to
+   a transform.  [parse] (bytes of a linked file -> abstract file) and the file system
+   [fs] are arbitrary functions too.
+   Model/C11Dwarf.v + Model/C11Elf.v transliterate the code (pinned by the correspondence
+   of tools/harness/c11.py, which also runs Spec and Model side by side on every case). *)
+From PV Require Import Base.Bytes Base.Outcome Base.Fmt Spec.PrimSpec Spec.ElfGabi Spec.C11Container
+  Model.C11Elf Model.C11Dwarf
+  Proofs.C11Crc Proofs.C11View Proofs.C11Zgnu Proofs.C11Links Proofs.C11Reject Proofs.C11Stored
+  Proofs.C11Examples.
+Open Scope list_scope.
+Open Scope Z_scope.
 
-(* CRC-32: the bitwise register model of binascii.crc32 = remainder of polynomial long division over GF(2) *)
+(* ======================================================================= CRC-32 *)
+(* the bitwise register model of binascii.crc32 = remainder of polynomial long division over GF(2) *)
 Theorem C11_crc32_model_spec : forall bs, all_bytes bs = true -> crc32_model bs = crc32_poly bs.
 Proof. exact crc32_model_is_poly. Qed.
 Print Assumptions C11_crc32_model_spec.
@@ -14,3 +30,287 @@ Print Assumptions C11_file_crc32_whole.
 
 Example C11_ex_crc_check : crc32_poly [49; 50; 51; 52; 53; 54; 55; 56; 57] = 0xCBF43926.
 Proof. vm_compute. reflexivity. Qed.
+
+(* ======================================================================= invariance *)
+(* gABI (SHF_COMPRESSED + Elf_Chdr + zlib stream): ANY set of sections of ANY file may be
+   re-encoded — each stored plainly and completely, not the debug-link carrier, header
+   values fitting their fields; reserved word, alignment, new offset and the bytes that
+   follow are arbitrary; the blob is ANY complete zlib stream of the content (any level) —
+   and the view is the same, for every fuel, file system, relocate and follow_links. *)
+Theorem C11_view_invariant_gabi :
+  forall (inflate : list Z -> Z -> option (list Z * bool)) (parse : list Z -> option elf)
+         (choice : nat -> option gabi_args) (e : elf),
+  gabi_choice_ok choice e = true -> gabi_blobs_ok inflate choice e ->
+  forall fuel fs relocate follow,
+    debug_view inflate parse fuel fs (T_gabi choice e) relocate follow
+    = debug_view inflate parse fuel fs e relocate follow.
+Proof. exact gabi_view_invariant. Qed.
+Print Assumptions C11_view_invariant_gabi.
+
+(* more generally: sections that agree on name, type, address and stored payload (and on
+   the raw bytes when they carry the debug link) are interchangeable *)
+Theorem C11_view_depends_on_payloads :
+  forall (inflate : list Z -> Z -> option (list Z * bool)) (parse : list Z -> option elf) (e e' : elf),
+  e_le e' = e_le e -> e_is64 e' = e_is64 e -> e_machine e' = e_machine e -> e_flags e' = e_flags e ->
+  Forall2 (sec_equiv inflate (e_le e) (e_is64 e)) (e_secs e) (e_secs e') ->
+  forall relocate fuel fs follow,
+    debug_view inflate parse fuel fs e' relocate follow = debug_view inflate parse fuel fs e relocate follow.
+Proof. exact secs_equiv_view. Qed.
+Print Assumptions C11_view_depends_on_payloads.
+
+(* legacy GNU (".debug_X" renamed ".zdebug_X", "ZLIB" + 8-byte big-endian size + zlib
+   stream), decided PER NAME, relocation sections renamed along; file in the plain naming,
+   no phantom bytes.  Files mixing both namings are covered (any subset of names). *)
+Theorem C11_view_invariant_zgnu :
+  forall (inflate : list Z -> Z -> option (list Z * bool)) (parse : list Z -> option elf)
+         (choice : nat -> option zgnu_args) (e : elf),
+  zgnu_choice_ok choice e = true -> zgnu_blobs_ok inflate choice e ->
+  plain_names e = true -> no_phantom e = true ->
+  forall fuel fs relocate follow,
+    debug_view inflate parse fuel fs (T_zgnu choice e) relocate follow
+    = debug_view inflate parse fuel fs e relocate follow.
+Proof. exact zgnu_view_invariant. Qed.
+Print Assumptions C11_view_invariant_zgnu.
+
+(* separate debug file: a file without .debug_info/.zdebug_info to which a .gnu_debuglink
+   (name, NUL, zero padding to 4, CRC in the file's byte order) is appended shows, when
+   links are followed, exactly the view of the linked file — in particular the view of the
+   original when the link names a copy of it *)
+Theorem C11_view_through_debuglink :
+  forall (inflate : list Z -> Z -> option (list Z * bool)) (parse : list Z -> option elf)
+         es name pad crc off tail load dbg ed,
+  presence es true = false -> debuglink_ok name pad crc = true ->
+  load name = Some dbg -> crc32_poly dbg = crc -> parse dbg = Some ed ->
+  forall fuel relocate,
+  debug_view inflate parse (S fuel) (Some load)
+             (add_section (debuglink_sec (e_le es) name pad crc off tail) es) relocate true
+  = debug_view inflate parse fuel (Some load) ed relocate true.
+Proof. exact debuglink_view. Qed.
+Print Assumptions C11_view_through_debuglink.
+
+(* ... and when the link is not followed (no loader, follow_links=False, or the file has
+   debug info of its own) it is inert *)
+Theorem C11_debuglink_inert :
+  forall (inflate : list Z -> Z -> option (list Z * bool)) (parse : list Z -> option elf)
+         es le name pad crc off tail fs follow,
+  fs = None \/ follow = false \/ presence es true = true ->
+  forall fuel relocate,
+  debug_view inflate parse (S fuel) fs (add_section (debuglink_sec le name pad crc off tail) es) relocate follow
+  = own_view inflate parse fs es relocate follow.
+Proof. exact debuglink_inert. Qed.
+Print Assumptions C11_debuglink_inert.
+
+(* a debug link whose checksum does not match its target is rejected (specification) *)
+Theorem C11_debuglink_crc_mismatch_no_view :
+  forall (inflate : list Z -> Z -> option (list Z * bool)) (parse : list Z -> option elf)
+         es name pad crc off tail load dbg,
+  presence es true = false -> debuglink_ok name pad crc = true ->
+  load name = Some dbg -> crc32_poly dbg <> crc ->
+  forall fuel relocate,
+  debug_view inflate parse (S fuel) (Some load)
+             (add_section (debuglink_sec (e_le es) name pad crc off tail) es) relocate true = None.
+Proof. exact debuglink_crc_mismatch. Qed.
+Print Assumptions C11_debuglink_crc_mismatch_no_view.
+
+(* supplementary file behind .gnu_debugaltlink (name, NUL, 20-byte build id, anything):
+   with a loader and follow_links the supplementary file's own view becomes v_sup; without
+   either it is None; the file's slots are untouched except the carrier's own slot *)
+Theorem C11_view_altlink :
+  forall (inflate : list Z -> Z -> option (list Z * bool)) (parse : list Z -> option elf)
+         e name id rest off tail load b esup sl slsup relocate,
+  no_phantom e = true -> own_slots inflate e relocate = Some sl -> nth SLOT_SUP sl None = None ->
+  no_nul name = true -> length id = 20%nat ->
+  load name = Some b -> parse b = Some esup ->
+  own_slots inflate esup true = Some slsup -> sup_path (e_le esup) slsup <> None ->
+  let body := altlink_body name (id ++ rest) in
+  let d := mkDesc body (zlen body) 0 (if relocate then reloc_index e n_debugaltlink else None) in
+  let e' := add_section (link_section n_debugaltlink body off tail) e in
+  own_view inflate parse (Some load) e' relocate true =
+    Some (mkView (config_of e) (set_nth SLOT_ALTLINK (Some d) sl) (Some (config_of esup, slsup))) /\
+  own_view inflate parse None e' relocate true =
+    Some (mkView (config_of e) (set_nth SLOT_ALTLINK (Some d) sl) None) /\
+  forall fs, own_view inflate parse fs e' relocate false =
+    Some (mkView (config_of e) (set_nth SLOT_ALTLINK (Some d) sl) None).
+Proof. exact altlink_view. Qed.
+Print Assumptions C11_view_altlink.
+
+(* the same file behind a DWARF 5 .debug_sup (version, is_supplementary = 0, name, NUL, rest):
+   the same supplementary view *)
+Theorem C11_view_debugsup :
+  forall (inflate : list Z -> Z -> option (list Z * bool)) (parse : list Z -> option elf)
+         e version name rest off tail load b esup sl slsup relocate,
+  no_phantom e = true -> own_slots inflate e relocate = Some sl ->
+  no_nul name = true ->
+  load name = Some b -> parse b = Some esup ->
+  own_slots inflate esup true = Some slsup -> sup_path (e_le esup) slsup <> None ->
+  let body := debugsup_body (e_le e) version 0 name rest in
+  let d := mkDesc body (zlen body) 0 (if relocate then reloc_index e n_debug_sup else None) in
+  let e' := add_section (link_section n_debug_sup body off tail) e in
+  own_view inflate parse (Some load) e' relocate true =
+    Some (mkView (config_of e) (set_nth SLOT_SUP (Some d) sl) (Some (config_of esup, slsup))) /\
+  own_view inflate parse None e' relocate true =
+    Some (mkView (config_of e) (set_nth SLOT_SUP (Some d) sl) None) /\
+  forall fs, own_view inflate parse fs e' relocate false =
+    Some (mkView (config_of e) (set_nth SLOT_SUP (Some d) sl) None).
+Proof. exact debugsup_view. Qed.
+Print Assumptions C11_view_debugsup.
+
+(* ======================================================================= presence *)
+(* has_dwarf_info(strict) of the model = the formula of the property, for every file whose
+   Section objects can be constructed ... *)
+Theorem C11_presence_exact : forall e strict, constructible e = true ->
+  has_dwarf_info e strict = Ok (presence e strict).
+Proof. exact presence_exact. Qed.
+Print Assumptions C11_presence_exact.
+
+(* ... which is every file the model of ELFFile() returns, for all byte strings *)
+Theorem C11_presence_exact_img : forall img e strict, parse_image img = Ok e ->
+  img_has_dwarf_info img strict = Ok (presence e strict).
+Proof. exact img_presence_exact. Qed.
+Print Assumptions C11_presence_exact_img.
+
+(* ======================================================================= rejections (model of the code) *)
+Theorem C11_link_rejected_on_crc_mismatch :
+  forall (inflate : list Z -> Z -> option (list Z * bool)) f load e relocate dls filename checksum ext,
+  get_section_by_name e n_debuglink = Ok (Some dls) ->
+  has_dwarf_info e true = Ok false ->
+  gnu_debuglink_parse (e_le e) (s_stream (sc_sec dls)) = Ok (filename, checksum) ->
+  load filename = Some ext -> all_bytes ext = true -> crc32_poly ext <> checksum ->
+  get_dwarf_info inflate (S f) (Some load) e relocate true = Err EElf.
+Proof. exact link_rejected_on_crc_mismatch. Qed.
+Print Assumptions C11_link_rejected_on_crc_mismatch.
+
+(* legacy framing: size <= 12, magic other than "ZLIB", or declared size <> inflated size *)
+Theorem C11_zdebug_bad_framing_rejected :
+  forall (inflate : list Z -> Z -> option (list Z * bool)) d,
+  zdebug_bad inflate d -> decompress_dwarf_section inflate d = Err (EPy "AssertionError").
+Proof. exact zdebug_bad_framing_rejected. Qed.
+Print Assumptions C11_zdebug_bad_framing_rejected.
+
+Theorem C11_zdebug_bad_framing_no_payload :
+  forall (inflate : list Z -> Z -> option (list Z * bool)) raw size,
+  size <= 12 \/ firstn 4 raw <> ZLIB_MAGIC \/
+  (exists out eof, inflate (skipn 12 raw) 0 = Some (out, eof) /\ be_decode (firstn 8 (skipn 4 raw)) <> zlen out) ->
+  zdebug_payload inflate raw size = None.
+Proof. exact spec_zdebug_bad_framing_rejected. Qed.
+Print Assumptions C11_zdebug_bad_framing_no_payload.
+
+(* gABI: a declared ch_size different from the inflated size (smaller OR larger) is
+   rejected with ELFCompressionError, for every complete zlib stream *)
+Theorem C11_declared_size_mismatch_rejected :
+  forall (inflate : list Z -> Z -> option (list Z * bool)) e sc p,
+  sc_compressed sc = true -> sc_ctype sc = ELFCOMPRESS_ZLIB -> s_type (sc_sec sc) <> SHT_NOBITS ->
+  deflated inflate (compressed_bytes e sc) p ->
+  0 <= sc_dsize sc < 2 ^ 63 -> sc_dsize sc <> zlen p ->
+  section_data inflate e sc = Err ECompress.
+Proof. exact declared_size_mismatch_rejected. Qed.
+Print Assumptions C11_declared_size_mismatch_rejected.
+
+Theorem C11_declared_size_mismatch_no_payload :
+  forall (inflate : list Z -> Z -> option (list Z * bool)) le is64 s h t p,
+  decode_layout (spec_Elf_Chdr le is64) (s_stream s) = Some (h, t) ->
+  is_nobits s = false -> rec_z h "ch_type" = ELFCOMPRESS_ZLIB ->
+  deflated inflate (py_read (s_size s - Z.of_nat (chdr_size is64)) (skipn (chdr_size is64) (s_stream s))) p ->
+  0 <= rec_z h "ch_size" -> rec_z h "ch_size" <> zlen p ->
+  gabi_payload inflate le is64 s = None.
+Proof. exact spec_declared_size_mismatch_rejected. Qed.
+Print Assumptions C11_declared_size_mismatch_no_payload.
+
+(* what the code did before commit d25be29 (Section.data without the decomp.eof test):
+   a declared size smaller than the inflated size was accepted and the data truncated *)
+Theorem C11_declared_size_smaller_accepted_before_repair :
+  deflated inflate_stored (compressed_bytes refute_elf refute_section) [7; 9] /\
+  sc_dsize refute_section < zlen [7; 9] /\
+  make_section refute_elf refute_sec = Ok refute_section /\
+  section_data_gen inflate_stored false refute_elf refute_section = Ok [7] /\
+  section_data inflate_stored refute_elf refute_section = Err ECompress.
+Proof. exact declared_size_smaller_accepted_before_repair. Qed.
+Print Assumptions C11_declared_size_smaller_accepted_before_repair.
+
+(* ======================================================================= non-vacuity *)
+(* the law assumed of zlib is satisfiable: the stored codec obeys it for every content *)
+Example C11_ex_oracle_law_satisfiable : forall p, deflated inflate_stored p p.
+Proof. exact stored_deflated. Qed.
+
+(* gABI: the hypotheses hold of a concrete file and choice, the transform changes the file,
+   and the (equal) views are not the trivial None *)
+Example C11_ex_gabi :
+  gabi_choice_ok ex_gabi_choice ex_elf = true /\ gabi_blobs_ok inflate_stored ex_gabi_choice ex_elf /\
+  T_gabi ex_gabi_choice ex_elf <> ex_elf /\
+  debug_view inflate_stored ex_parse 2 None (T_gabi ex_gabi_choice ex_elf) true true <> None /\
+  debug_view inflate_stored ex_parse 2 None (T_gabi ex_gabi_choice ex_elf) true true
+  = debug_view inflate_stored ex_parse 2 None ex_elf true true.
+Proof.
+  split; [reflexivity|]. split; [apply stored_gabi_blobs_ok; reflexivity|].
+  split; [discriminate|]. split; [vm_compute; discriminate|].
+  apply C11_view_invariant_gabi; [reflexivity|apply stored_gabi_blobs_ok; reflexivity].
+Qed.
+
+(* legacy: both .debug_info sections and (by renaming) .rela.debug_info are involved;
+   the relocation section is still found, at the same index *)
+Example C11_ex_zgnu :
+  zgnu_choice_ok ex_zgnu_choice ex_elf = true /\ zgnu_blobs_ok inflate_stored ex_zgnu_choice ex_elf /\
+  plain_names ex_elf = true /\ no_phantom ex_elf = true /\
+  map s_name (e_secs (T_zgnu ex_zgnu_choice ex_elf)) =
+    map ascii_bytes [".text"; ".zdebug_info"; ".zdebug_info"; ".debug_abbrev"; ".rela.zdebug_info"; ".eh_frame"]%string /\
+  option_map (fun v => option_map d_reloc (nth 0 (v_slots v) None))
+             (debug_view inflate_stored ex_parse 2 None (T_zgnu ex_zgnu_choice ex_elf) true true)
+    = Some (Some (Some 4%nat)) /\
+  debug_view inflate_stored ex_parse 2 None (T_zgnu ex_zgnu_choice ex_elf) true true
+  = debug_view inflate_stored ex_parse 2 None ex_elf true true.
+Proof.
+  split; [reflexivity|]. split; [apply stored_zgnu_blobs_ok; reflexivity|].
+  split; [reflexivity|]. split; [reflexivity|]. split; [reflexivity|]. split; [vm_compute; reflexivity|].
+  apply C11_view_invariant_zgnu; try reflexivity. apply stored_zgnu_blobs_ok; reflexivity.
+Qed.
+
+(* the per-name hypothesis is needed: re-encoding only the later of two .debug_info
+   sections changes which section the name denotes, and the view *)
+Example C11_ex_zgnu_per_name_needed :
+  zgnu_choice_ok ex_zgnu_bad_choice ex_elf = false /\
+  debug_view inflate_stored ex_parse 2 None (T_zgnu ex_zgnu_bad_choice ex_elf) true true
+  <> debug_view inflate_stored ex_parse 2 None ex_elf true true.
+Proof. split; [reflexivity|vm_compute; discriminate]. Qed.
+
+(* debug link: right CRC -> the linked file's view (not None); wrong CRC -> rejected *)
+Example C11_ex_debuglink :
+  presence ex_stripped true = false /\ debuglink_ok ex_dbg_name ex_pad ex_crc = true /\
+  debug_view inflate_stored ex_parse 3 (Some ex_load)
+    (add_section (debuglink_sec true ex_dbg_name ex_pad ex_crc 200 [1]) ex_stripped) true true
+  = debug_view inflate_stored ex_parse 2 (Some ex_load) ex_elf true true /\
+  debug_view inflate_stored ex_parse 2 (Some ex_load) ex_elf true true <> None /\
+  debug_view inflate_stored ex_parse 3 (Some ex_load)
+    (add_section (debuglink_sec true ex_dbg_name ex_pad (ex_crc + 1) 200 [1]) ex_stripped) true true = None.
+Proof.
+  split; [reflexivity|]. split; [vm_compute; reflexivity|].
+  split; [apply (C11_view_through_debuglink inflate_stored ex_parse ex_stripped ex_dbg_name ex_pad ex_crc 200 [1]
+                   ex_load ex_dbg_bytes ex_elf); reflexivity|].
+  split; [vm_compute; discriminate|].
+  apply (C11_debuglink_crc_mismatch_no_view inflate_stored ex_parse ex_stripped ex_dbg_name ex_pad (ex_crc + 1) 200 [1]
+           ex_load ex_dbg_bytes); try reflexivity. vm_compute. discriminate.
+Qed.
+
+(* supplementary link in both encodings: same supplementary view *)
+Example C11_ex_sup :
+  option_map v_sup (own_view inflate_stored ex_parse (Some ex_load)
+     (add_section (link_section n_debugaltlink (altlink_body ex_dbg_name (ex_id ++ [])) 300 []) ex_stripped) true true)
+  = option_map v_sup (own_view inflate_stored ex_parse (Some ex_load)
+     (add_section (link_section n_debug_sup (debugsup_body true 5 0 ex_dbg_name [20]) 300 []) ex_stripped) true true) /\
+  option_map v_sup (own_view inflate_stored ex_parse (Some ex_load)
+     (add_section (link_section n_debugaltlink (altlink_body ex_dbg_name (ex_id ++ [])) 300 []) ex_stripped) true true)
+  = Some (option_map (fun sl => (config_of ex_elf, sl)) (own_slots inflate_stored ex_elf true)) /\
+  own_slots inflate_stored ex_elf true <> None.
+Proof. split; [vm_compute; reflexivity|]. split; [vm_compute; reflexivity|vm_compute; discriminate]. Qed.
+
+(* rejections: a concrete bad framing; presence on a concrete file *)
+Example C11_ex_zdebug_bad :
+  zdebug_bad inflate_stored (mkDescriptor (ascii_bytes ".zdebug_info") 0 ([90;76;73;66; 0;0;0;0;0;0;0;9; 1;2;3]) 15 0 None).
+Proof.
+  right. right. split; [vm_compute; discriminate|]. exists [1;2;3], true. split; [reflexivity|]. vm_compute. discriminate.
+Qed.
+
+Example C11_ex_presence :
+  constructible ex_elf = true /\ has_dwarf_info ex_elf true = Ok true /\
+  constructible ex_stripped = true /\ has_dwarf_info ex_stripped true = Ok false /\
+  has_dwarf_info ex_stripped false = Ok true.
+Proof. repeat split; reflexivity. Qed.
